@@ -22,7 +22,8 @@ The model follows the compiler with the repairs `docs/fixes/CC-*.diff`.  The sem
 `C03_fragment_partial` is proved for that model (`QV/Proofs/CompilerClean.lean`) on the whole class of
 `C02_fragment_partial`: since the repaired `compile_or` applies no `X` gate to an argument qubit the class
 no longer restricts the arity of `Or`, and since the ancillas of a definition that is not a return bit are
-kept until `uncompute_all` it no longer asks for a requested return name.
+kept until `uncompute_all` it no longer asks for a requested return name.  `C03_general_partial` (end of the file)
+proves cleanliness on the general class: definition lists with the intermediates first and the return bits last.
 -/
 namespace QV.C03
 open QV QV.Compiler
